@@ -155,6 +155,8 @@ func KeyOfDefault(n int) MV {
 		return Str{StrOfSize(maxKey, "K100.")}
 	case n == 101:
 		return Str{StrOfSize(maxKey+1, "K101.")}
+	case n >= 200 && n < 300:
+		return Str{fmt.Sprintf("f%d", n-200)} // field names of composite maps
 	}
 	return Str{fmt.Sprintf("K%d", n)}
 }
